@@ -43,9 +43,10 @@ type AxisDesc struct {
 }
 
 type MapDesc struct {
-	Name string
-	Keys map[string]KeyNote
-	Axes []AxisDesc
+	Name    string
+	Keys    map[string]KeyNote            // sub-handler ""
+	SubKeys map[string]map[string]KeyNote // further sub-handlers: name -> key -> note
+	Axes    []AxisDesc
 }
 
 type Desc struct {
@@ -60,7 +61,7 @@ type Desc struct {
 	Actions  map[string]string // key name -> action
 	Mappings []MapDesc
 	cfg      *config.Config // parsed once by the real parser (read-only afterwards)
-	Extra    []string // further keys in the alphabet that are mapped to nothing
+	Extra    []string       // further keys in the alphabet that are mapped to nothing
 	// driver bounds (inclusive) on the reference state; an action press that would leave them is not offered
 	OctLo, OctHi, SemLo, SemHi int
 	ChSet                      []int // allowed 0-based channels (empty: all); 0 is always reachable through reset
@@ -97,6 +98,13 @@ func (d *Desc) TOML() string {
 				fmt.Fprintf(&b, "      %s = \"%d,%d\"\n", k, kn.Note, kn.Offset)
 			} else {
 				fmt.Fprintf(&b, "      %s = \"%d\"\n", k, kn.Note)
+			}
+		}
+		for _, sub := range sortedKeys(m.SubKeys) {
+			fmt.Fprintf(&b, "  [[mapping.keys]]\n    subhandler = %q\n    [mapping.keys.map]\n", sub)
+			for _, k := range sortedKeys(m.SubKeys[sub]) {
+				kn := m.SubKeys[sub][k]
+				fmt.Fprintf(&b, "      %s = \"%d,%d\"\n", k, kn.Note, kn.Offset)
 			}
 		}
 		if len(m.Axes) > 0 {
@@ -148,6 +156,7 @@ func (d *Desc) TOML() string {
 // ---- event alphabet
 
 type Sym struct {
+	Sub    string // sub-handler the event comes from ("" default)
 	Name   string
 	IsAxis bool
 	Code   evdev.EvCode
@@ -190,6 +199,17 @@ func (d *Desc) Alphabet() []Sym {
 	for _, m := range d.Mappings {
 		for _, k := range sortedKeys(m.Keys) {
 			addKey(k, d.Actions[k])
+		}
+	}
+	for _, m := range d.Mappings {
+		for _, sub := range sortedKeys(m.SubKeys) {
+			for _, k := range sortedKeys(m.SubKeys[sub]) {
+				n := sub + ":" + k
+				if !seen[n] {
+					seen[n] = true
+					out = append(out, Sym{Sub: sub, Name: n, Code: keyCode(k)})
+				}
+			}
 		}
 	}
 	for _, k := range sortedKeys(d.Actions) {
@@ -280,5 +300,7 @@ func inputEvent(alpha []Sym, e Event) *input.InputEvent {
 	if s.IsAxis {
 		t = evdev.EV_ABS
 	}
-	return &input.InputEvent{Source: handler, Event: evdev.InputEvent{Type: t, Code: s.Code, Value: e.Val}}
+	h := handler
+	h.Name = s.Sub
+	return &input.InputEvent{Source: h, Event: evdev.InputEvent{Type: t, Code: s.Code, Value: e.Val}}
 }
